@@ -873,6 +873,14 @@ pub fn c09(tier: &str, acc: &mut Acc, bounds: &mut Vec<String>) {
 }
 
 pub fn replay_roundtrip(case: &Value) -> bool {
+    if case.get("scale_case").is_some() {
+        // the scale collections are re-run as a whole (the product exploration of c09_one is out of
+        // reach for tables of that size)
+        let mut acc = Acc::new();
+        let mut b = Vec::new();
+        crate::scale::roundtrip("C09", "quick", &mut acc, &mut b);
+        return !acc.violations.is_empty();
+    }
     let (cfg, pats, vals) = pop::rebuild(case);
     let mut acc = Acc::new();
     let Some(b) = e2::build_or_violate("C09", "roundtrip", cfg, &pats, vals.as_deref(), &mut acc) else {
